@@ -110,7 +110,7 @@ def run_driver(exe, lines, env=None, timeout=300, cmd='S'):
 # fixed models with a multi-client port (shapes of interfaces and configurations are C04's business; here: schedules)
 def fixed_cases():
     mixer = [['extern', ['Int'], 'int'], ['extern', ['Str'], 'std::string'],
-             ['ns', ['My'], [['itf', ['IArb'], [['enum', ['Verdict'], ['Nope', 'Granted', 'Later']]],
+             ['ns', ['My'], [['itf', ['IArb'], [['enum', ['Verdict'], ['NotGranted', 'Granted', 'GrantedLater']]],
                               [['Acquire', 'in', ['Verdict'], [['who', ['Str'], 'in'], ['n', ['Int'], 'inout']]],
                                ['Relinquish', 'in', ['bool'], [['why', ['Int'], 'in']]], ['Poke', 'in', ['void'], [['x', ['Int'], 'out']]],
                                ['Done', 'out', ['void'], [['n', ['Int'], 'in']]], ['Gone', 'out', ['void'], []]]],
